@@ -149,6 +149,27 @@ def _check_text_error(rec, text, exc, recog):
     return hs.fail(rec, 'dynamic lexer rejection reported as %s' % type(exc).__name__, text=repr(text))
 
 
+def _check_lalr_sets(rec, text, exc, prefix_kinds):
+    """LALR: every terminal in accepts can legally come next and belongs to expected (whichever component built the exception:
+    the parser, or the contextual lexer's fall-back to the root lexer)."""
+    legal = cfg.Frontier(BNF, cfg.TokenInput(list(prefix_kinds))).next_terms()
+    if PARSER == 'earley':
+        # Earley with the basic lexer: the reported set contains every terminal that can legally come next
+        got = {NAME_MAP.get(x, x) for x in (exc.allowed if isinstance(exc, UnexpectedCharacters) else exc.expected) or ()}
+        if not (legal - {'$END'}) <= got:
+            return hs.fail(rec, 'the reported continuation set misses a terminal that can legally come next', text=repr(text), reported=sorted(got), legal=sorted(legal))
+        return True
+    if PARSER != 'lalr' or isinstance(exc, UnexpectedCharacters):
+        return True
+    accepts = {NAME_MAP.get(x, x) for x in exc.accepts}
+    expected = {NAME_MAP.get(x, x) for x in exc.expected}
+    if not accepts <= legal:
+        return hs.fail(rec, 'accepts holds a terminal that cannot legally come next', text=repr(text), accepts=sorted(accepts), legal=sorted(legal))
+    if not accepts <= expected:
+        return hs.fail(rec, 'a terminal in accepts does not belong to expected', text=repr(text), accepts=sorted(accepts), expected=sorted(expected))
+    return True
+
+
 def _check_text_error_basic(rec, text, exc):
     """C08 at text level for the basic/contextual lexers (grammars whose terminals do not depend on the parser state): the error is at
     the first token that makes the consumed prefix non-extendable, or at the first character no terminal matches, whichever comes
@@ -180,7 +201,7 @@ def _check_text_error_basic(rec, text, exc):
         if (exc.line, exc.column) != posref.coords(text, pos):
             return hs.fail(rec, 'UnexpectedCharacters line/column are not those of its offset', text=repr(text), pos=pos, got=[exc.line, exc.column],
                            want=list(posref.coords(text, pos)))
-        return True
+        return _check_lalr_sets(rec, text, exc, kinds)
     if isinstance(exc, UnexpectedToken) and exc.token.type != '$END':
         t = exc.token
         if kind != 'token' or t.start_pos != pos:
@@ -188,7 +209,7 @@ def _check_text_error_basic(rec, text, exc):
         if (t.line, t.column) != posref.coords(text, pos) or (exc.line, exc.column) != (t.line, t.column):
             return hs.fail(rec, 'UnexpectedToken line/column are not those of the offending token', text=repr(text), pos=pos,
                            got=[t.line, t.column, exc.line, exc.column], want=list(posref.coords(text, pos)))
-        return True
+        return _check_lalr_sets(rec, text, exc, kinds[:bad])
     if isinstance(exc, (UnexpectedToken, UnexpectedEOF)):
         if kind != 'end':
             return hs.fail(rec, 'end of input reported, reference: first offending %s at %s' % (kind, pos), text=repr(text))
@@ -198,7 +219,7 @@ def _check_text_error_basic(rec, text, exc):
             if t.start_pos != last[2] or (t.line, t.column) != posref.coords(text, last[2]):
                 return hs.fail(rec, 'unexpected $END does not carry the coordinates of the last token', text=repr(text), got=[t.start_pos, t.line, t.column],
                                want=[last[2]] + list(posref.coords(text, last[2])))
-        return True
+        return _check_lalr_sets(rec, text, exc, kinds)
     return hs.fail(rec, 'rejection reported as %s' % type(exc).__name__, text=repr(text))
 
 
